@@ -3,6 +3,7 @@
 //! command-line / configuration-file layering (C16).  Logs are validated by TLC.
 
 mod cfgdrv;
+mod dnsdrv;
 mod reportdrv;
 mod tuidrv;
 
@@ -20,6 +21,7 @@ fn main() {
     let code = match args.get(1).map(String::as_str) {
         Some("tui") => tuidrv::run(seed, n, arg(rest, "--family").unwrap_or("tui"), &out, stats.as_deref()),
         Some("report") => reportdrv::run(seed, n, &out, stats.as_deref()),
+        Some("dns") => dnsdrv::run(seed, n, &out, stats.as_deref()),
         Some("layout") => {
             // one horizontal split, as ratatui's Table does for its columns: explores the termination of the
             // layout solver for a given width and list of Min constraints (one process = one hash seed)
